@@ -108,6 +108,8 @@ def r182_merge(chk, m):
 
 def r182_groups(chk, m):
     R = 'R18.2'
+    if R not in chk.rules:
+        chk.rule(R, 'index letter groups: every item goes into exactly one group and a new heading (with its own id) starts exactly when the heading changes', 2)
     fn = m.func(MOD, 'IndexUtils.groups')
     chk.analysed(fn)
     loops = [n for n in fn.node.body if isinstance(n, ast.For)]
